@@ -4,6 +4,7 @@
 //        variant = [c|p][g|u][u|s]  copy/pointer, guarded/unguarded, unstable/stable
 //        cmp     = lt | gt | q4      a<b, a>b, a/4<b/4 (equivalence coarser than equality)
 //        seq     = csv of the keys player i will present, '-' = none (starts exhausted)
+//   ctor <named|temp|mutate|factory>   (before init) how the comparator is handed to the constructor, see Session::ctor
 //   storage <array|slot|fresh>   (before init) where the keys handed to the tree live, see Session::storage
 //   init [perm] insert_start(head or sup) for every player in the order `perm` (csv permutation of
 //               0..k-1, default ascending), then init()
@@ -52,14 +53,25 @@ struct K40 {
 static_assert(sizeof(K8) <= 2 * sizeof(size_t), "copy-sized");
 static_assert(sizeof(K40) > 2 * sizeof(size_t), "pointer-sized");
 
+// A STATEFUL comparator: the order lives in an own heap cell.  Copies are deep; the destructor
+// scribbles over the cell before releasing it, so a tree that merely aliases the comparator it was
+// constructed with (instead of owning a copy) replays with a garbage order / trips ASan as soon as
+// the caller's object is gone, and follows the caller's later modifications.
 template <typename K>
 struct Cmp {
-    int mode = 0;
+    int* st;
+    explicit Cmp(int m = 0) : st(new int(m)) {}
+    Cmp(const Cmp& o) : st(new int(*o.st)) {}
+    Cmp& operator=(const Cmp& o) { *st = *o.st; return *this; }
+    ~Cmp() { *st = 0x5a5a5a5a; delete st; }
+    int mode() const { return *st; }
+    void set(int m) { *st = m; }
     bool operator()(const K& a, const K& b) const {
-        switch (mode) {
+        switch (*st) {
+        case 0: return a.v < b.v;
         case 1: return a.v > b.v;
         case 2: return (a.v >> 2) < (b.v >> 2);
-        default: return a.v < b.v;
+        default: return a.v == 12345;      // scribbled state: no order at all
         }
     }
 };
@@ -121,6 +133,7 @@ struct SessionBase {
     virtual void init(const std::vector<long long>& order) = 0;
     virtual void replace() = 0;
     virtual bool set_storage(const std::string& m) = 0;
+    virtual bool set_ctor(const std::string& m) = 0;
 };
 
 template <typename K>
@@ -173,15 +186,45 @@ struct Session : SessionBase {
     bool any_live() const { for (uint32_t i = 0; i < k; ++i) if (live(i)) return true; return false; }
     bool pow2() const { return (k & (k - 1)) == 0; }
 
+    // How the tree gets its comparator (the classes take `const Comparator&` and must own a copy):
+    //   0 named   : a named object that stays alive and unchanged
+    //   1 temp    : a temporary, destroyed (and scribbled over) right after the constructor
+    //   2 mutate  : a named object that the caller switches to another order after construction
+    //   3 factory : a function-local comparator; the function returns the tree
+    // The oracle always uses the ORIGINAL order.
+    int ctor = 0;
+    std::unique_ptr<Cmp<K> > scratch;
+    bool set_ctor(const std::string& m) override {
+        if (inited) return false;
+        if (m == "named") ctor = 0; else if (m == "temp") ctor = 1; else if (m == "mutate") ctor = 2;
+        else if (m == "factory") ctor = 3; else return false;
+        return true;
+    }
+    template <typename T, bool G, typename... A>
+    static ITree* factory(int m, A&... a) { Cmp<K> local(m); return new TreeW<T, K, G>(a..., local); }
+    template <typename T, bool G, typename... A>
+    void build(A&... a) {
+        int m = cmp.mode();
+        switch (ctor) {
+        case 1: tree.reset(new TreeW<T, K, G>(a..., Cmp<K>(m))); break;
+        case 2:
+            scratch.reset(new Cmp<K>(m));
+            tree.reset(new TreeW<T, K, G>(a..., *scratch));
+            scratch->set((m + 1) % 3);
+            break;
+        case 3: tree.reset(factory<T, G>(m, a...)); break;
+        default: tree.reset(new TreeW<T, K, G>(a..., cmp)); break;
+        }
+    }
     void make_tree() {
-        if (copy && guarded && !stable) tree.reset(new TreeW<tlx::LoserTreeCopy<false, K, Cmp<K> >, K, true>(k, cmp));
-        if (copy && guarded && stable) tree.reset(new TreeW<tlx::LoserTreeCopy<true, K, Cmp<K> >, K, true>(k, cmp));
-        if (!copy && guarded && !stable) tree.reset(new TreeW<tlx::LoserTreePointer<false, K, Cmp<K> >, K, true>(k, cmp));
-        if (!copy && guarded && stable) tree.reset(new TreeW<tlx::LoserTreePointer<true, K, Cmp<K> >, K, true>(k, cmp));
-        if (copy && !guarded && !stable) tree.reset(new TreeW<tlx::LoserTreeCopyUnguarded<false, K, Cmp<K> >, K, false>(k, sentinel, cmp));
-        if (copy && !guarded && stable) tree.reset(new TreeW<tlx::LoserTreeCopyUnguarded<true, K, Cmp<K> >, K, false>(k, sentinel, cmp));
-        if (!copy && !guarded && !stable) tree.reset(new TreeW<tlx::LoserTreePointerUnguarded<false, K, Cmp<K> >, K, false>(k, sentinel, cmp));
-        if (!copy && !guarded && stable) tree.reset(new TreeW<tlx::LoserTreePointerUnguarded<true, K, Cmp<K> >, K, false>(k, sentinel, cmp));
+        if (copy && guarded && !stable) build<tlx::LoserTreeCopy<false, K, Cmp<K> >, true>(k);
+        if (copy && guarded && stable) build<tlx::LoserTreeCopy<true, K, Cmp<K> >, true>(k);
+        if (!copy && guarded && !stable) build<tlx::LoserTreePointer<false, K, Cmp<K> >, true>(k);
+        if (!copy && guarded && stable) build<tlx::LoserTreePointer<true, K, Cmp<K> >, true>(k);
+        if (copy && !guarded && !stable) build<tlx::LoserTreeCopyUnguarded<false, K, Cmp<K> >, false>(k, sentinel);
+        if (copy && !guarded && stable) build<tlx::LoserTreeCopyUnguarded<true, K, Cmp<K> >, false>(k, sentinel);
+        if (!copy && !guarded && !stable) build<tlx::LoserTreePointerUnguarded<false, K, Cmp<K> >, false>(k, sentinel);
+        if (!copy && !guarded && stable) build<tlx::LoserTreePointerUnguarded<true, K, Cmp<K> >, false>(k, sentinel);
     }
 
     void oracle(const char* after) {
@@ -278,7 +321,7 @@ static bool make_session(const std::vector<std::string>& t) {
     s->guarded = v[1] == 'g';
     s->stable = v[2] == 's';
     if ((v[0] != 'c' && v[0] != 'p') || (v[1] != 'g' && v[1] != 'u') || (v[2] != 'u' && v[2] != 's')) return false;
-    if (t[2] == "lt") s->cmp.mode = 0; else if (t[2] == "gt") s->cmp.mode = 1; else if (t[2] == "q4") s->cmp.mode = 2; else return false;
+    if (t[2] == "lt") s->cmp.set(0); else if (t[2] == "gt") s->cmp.set(1); else if (t[2] == "q4") s->cmp.set(2); else return false;
     long long k = std::stoll(t[3]);
     if (k < 1 || k > 200000 || t.size() != static_cast<size_t>(5 + k)) return false;
     s->k = static_cast<uint32_t>(k);
@@ -324,6 +367,7 @@ int main(int argc, char** argv) {
             continue;
         }
         if (!sess) { vh::answer("bad-op"); continue; }
+        if (t[0] == "ctor") { vh::answer(t.size() == 2 && sess->set_ctor(t[1]) ? "ok" : "bad-op"); continue; }
         if (t[0] == "storage") { vh::answer(t.size() == 2 && sess->set_storage(t[1]) ? "ok" : "bad-op"); continue; }
         if (t[0] == "init") {
             std::vector<long long> order;
